@@ -153,9 +153,9 @@ PROPS = {
         trusted=["spec_prwh: the one-shot payload parser is abstract in this unit; its own contract is C03's business"],
     ),
     "C05": dict(
-        level="model_checking",
-        level_text="Dispatch tables, GREASE/Unknown preservation, exact consumption, 'length beyond the block never yields a value', agreement of the three dispatchers and tag == wire type: unbounded deductive proof (Verus) on the real dispatcher bodies for all 65536 types and all data lengths, content parsers abstract. The 16 tag-specific parsers: unbounded (Verus, unit tagged, on the real bodies): each accepts exactly its own two type bytes (nom's streaming tag: a mismatching byte is Error(Tag) even on a short input), frames the u16-length-prefixed data and returns its content parser's verdict on exactly the declared bytes; lemmas: any other wire type is rejected, and the outcome equals the generic dispatcher's for that type (per-row premise 'the generic table sends this type to the same content parser' proved for all 16 rows; heartbeat additionally rejects a declared length other than 1 before framing - the recorded known finding). List parsers: explicit accumulate-while-Ok loops (units ext_lists, ext_lists2). Content parsers: 20 of them proved in Verus (units ext_contents, ext_lists2, bodies); all of them, and the tag-specific and list parsers again, have contracts checked by Kani on the compiled code, complete in byte contents and in every u8/u16 parameter, bounded in input length (bounded model checking, not proof).",
-        level_note="Trusted: nom shim contracts be_u16/length_data (assumed in Verus, checked by Kani shim_* harnesses on the real nom); each content parser is an uninterpreted function in Verus with the single assumed fact 'on success it returns its own variant', which is an obligation of that parser's Kani leaf harness; IANA code-point table transcribed by hand (verus/units/dispatch_ext.py TABLE); rewrites R0, R5, R6, R8 (From::from lifted to a free fn).",
+        level="proof",
+        level_text="Dispatch tables, GREASE/Unknown preservation, exact consumption, 'length beyond the block never yields a value', agreement of the three dispatchers and tag == wire type: unbounded deductive proof (Verus) on the real dispatcher bodies for all 65536 types and all data lengths, content parsers abstract. The 16 tag-specific parsers: unbounded (Verus, unit tagged, on the real bodies): each accepts exactly its own two type bytes (nom's streaming tag: a mismatching byte is Error(Tag) even on a short input), frames the u16-length-prefixed data and returns its content parser's verdict on exactly the declared bytes; lemmas: any other wire type is rejected, and the outcome equals the generic dispatcher's for that type (per-row premise 'the generic table sends this type to the same content parser' proved for all 16 rows; heartbeat additionally rejects a declared length other than 1 before framing - the recorded known finding). List parsers: explicit accumulate-while-Ok loops (units ext_lists, ext_lists2). Content parsers: all 26 proved in Verus (units ext_contents, ext_lists2, bodies: every field at its offset, every rejection rule, every cut-off Incomplete; elliptic_curves / supported_versions relative to the named-group / version list helpers, whose iterator-adapter bodies are assumed with the contracts their Kani leaves check); all of them, and the tag-specific and list parsers again, have contracts checked by Kani on the compiled code, complete in byte contents and in every u8/u16 parameter, bounded in input length (bounded model checking, not proof).",
+        level_note="Trusted: nom shim contracts be_u16/length_data (assumed in Verus, checked by Kani shim_* harnesses on the real nom); each content parser is an uninterpreted function in units dispatch_ext / tagged with the single assumed fact 'on success it returns its own variant' (an obligation of that parser's Kani leaf harness, and a consequence of its contract proved in units ext_contents / ext_lists2 / bodies); <[T]>::to_vec is given its std specification by assume_specification; parse_named_groups / parse_tls_versions are assumed with their Kani leaf contracts (bounded in list length); IANA code-point table transcribed by hand (verus/units/dispatch_ext.py TABLE); rewrites R0, R5, R6, R8 (From::from lifted to a free fn).",
         technique="contract-based deductive verification: Verus postconditions on extracted dispatchers + Kani contract harnesses per content parser",
         verus=["dispatch_ext", "ext_lists", "bodies", "ext_contents", "ext_lists2", "tagged"],
         kani=[dict(quick=["fd_ext_max_fragment_length", "fd_ext_heartbeat", "fd_ext_record_size_limit", "fd_ext_encrypt_then_mac", "fd_ext_extended_master_secret",
@@ -290,11 +290,11 @@ PROPS = {
         explanation="see level_text",
     ),
     "C11": dict(
-        level="model_checking",
-        level_text="For each enumerated code point the property lists, the hosting function's contract contains the conjunct 'field == the raw integer at its offset' and the harness leaves that byte/word fully symbolic and unconstrained, so the conjunct is decided for all 256 / 65536 values: record type and version (fd_record_header, Verus frame), alert level/description (fd_msg_alert), heartbeat type, ClientHello/ServerHello versions, cipher-suite and compression ids, extension type (Verus dispatch_ext: Unknown(type, data) for every unrecognised type; leaf_ext_unknown), named groups, signature/hash algorithms, SNI name type, certificate-status type, PSK modes, EC point formats, CT version, key-update value, DTLS header fields. Complete in the field value; bounded in the length of the surrounding structure (except the Verus units, unbounded).",
+        level="proof",
+        level_text="For each enumerated code point the property lists, the hosting function's contract contains the conjunct 'field == the raw integer at its offset' and the harness leaves that byte/word fully symbolic and unconstrained, so the conjunct is decided for all 256 / 65536 values: record type and version (fd_record_header, Verus frame), alert level/description (fd_msg_alert), heartbeat type, ClientHello/ServerHello versions, cipher-suite and compression ids, extension type (Verus dispatch_ext: Unknown(type, data) for every unrecognised type; leaf_ext_unknown), named groups, signature/hash algorithms, SNI name type, certificate-status type, PSK modes, EC point formats, CT version, key-update value, DTLS header fields. Complete in the field value. The hosting functions are Verus units (unbounded in the length of the surrounding structure) for every listed field except the elements of the cipher-suite / compression / named-group / version lists, whose iterator-adapter helpers are Kani leaves (element value fully symbolic, list length bounded), and the DTLS record header (Kani, full domain).",
         level_note="Certificate types of CertificateRequest are hosted by leaf_hs_certificate_request, which only runs in the thorough tier (768 s). No harness assumes anything about a listed field (assumption scan: vassume! is only applied to lengths/selectors).",
         technique="contract conjuncts over fully symbolic enumerated fields: Kani harnesses + Verus postconditions",
-        verus=["frame", "dispatch_ext", "ext_contents", "ext_lists2", "messages", "bodies", "hellos", "derived", "sct_content"],
+        verus=["frame", "dispatch_ext", "ext_contents", "ext_lists2", "messages", "bodies", "hellos", "derived", "sct_content", "certreq", "tagged", "dtls"],
         kani=[dict(quick=["fd_record_header", "fd_raw_record_small", "fd_encrypted_small", "fd_msg_alert", "leaf_msg_heartbeat", "mod_client_hello", "leaf_cipher_suites", "leaf_compressions",
                           "leaf_hs_server_hello_msg", "leaf_hs_hello_retry_request", "leaf_ext_unknown", "leaf_named_groups", "leaf_ext_elliptic_curves", "leaf_ext_signature_algorithms",
                           "leaf_digitally_signed", "leaf_ext_sni", "leaf_ext_status_request", "leaf_hs_certificatestatus", "leaf_ext_psk_modes", "leaf_ext_ec_point_formats",
